@@ -78,6 +78,10 @@ def random_collection(rng, valid=None):
             tab.packset_metadata([rb(rng) for _ in range(len(tab))])
     if len(t.individuals) and rng.random() < 0.7:
         t.individuals.packset_location([np.array([rng.random() for _ in range(rng.choice([0, 1, 3]))]) for _ in range(len(t.individuals))])
+    if len(t.individuals) >= 2 and rng.random() < 0.7:
+        # pedigree-style parents (earlier rows only, so that the table stays valid): ragged int32 column with its own offsets
+        t.individuals.packset_parents([np.array(sorted(rng.sample(range(j), rng.randint(0, min(j, 2)))) if j else [], dtype=np.int32)
+                                       for j in range(len(t.individuals))])
     for _ in range(rng.randint(1, 3)):
         t.provenances.add_row(record=rng.choice(["{}", "é✓", "", "rec"]), timestamp=rng.choice(["2020", "", "tøday"]))
     if rng.random() < 0.5:
